@@ -274,6 +274,43 @@ func (c *Ctx) registerStd(tab map[string]intrinsicFn) {
 	tab["strconv.FormatInt"] = func(c *Ctx, fn *ssa.Function, a []Value) Value {
 		return strconv.FormatInt(c.concInt(a[0].(*smt.Term), "strconv.FormatInt"), int(c.concInt(a[1].(*smt.Term), "base")))
 	}
+	// ---- loading: the environment returns an arbitrary (value, error) pair
+	ioErr := func(c *Ctx, what string) Value {
+		return IfaceV{T: c.errStringT(), V: &ErrV{Msg: "<environment failure: " + what + ">"}}
+	}
+	tab["google.golang.org/protobuf/proto.Unmarshal"] = func(c *Ctx, fn *ssa.Function, a []Value) Value {
+		c.E.Stubs["proto.Unmarshal (nondeterministic: error | message left as it is)"]++
+		if c.E.Concrete != nil || c.decide("proto.Unmarshal outcome", 2) == 0 {
+			return ioErr(c, "proto.Unmarshal")
+		}
+		return IfaceV{}
+	}
+	tab["os.ReadFile"] = func(c *Ctx, fn *ssa.Function, a []Value) Value {
+		c.E.Stubs["os.ReadFile (nondeterministic: error | some bytes)"]++
+		if c.E.Concrete != nil || c.decide("os.ReadFile outcome", 2) == 0 {
+			return TupleV{SliceV{}, ioErr(c, "os.ReadFile")}
+		}
+		b := &idArr{ids: make([]int64, 3), sort: smt.BV(8)}
+		return TupleV{SliceV{B: b, Len: 3, Cap: 3}, IfaceV{}}
+	}
+	tab["io.ReadAll"] = func(c *Ctx, fn *ssa.Function, a []Value) Value {
+		c.E.Stubs["io.ReadAll (nondeterministic: error | some bytes)"]++
+		if c.E.Concrete != nil || c.decide("io.ReadAll outcome", 2) == 0 {
+			return TupleV{SliceV{}, ioErr(c, "io.ReadAll")}
+		}
+		b := &idArr{ids: make([]int64, 3), sort: smt.BV(8)}
+		return TupleV{SliceV{B: b, Len: 3, Cap: 3}, IfaceV{}}
+	}
+	tab["(*archive/zip.File).Open"] = func(c *Ctx, fn *ssa.Function, a []Value) Value {
+		c.E.Stubs["zip.File.Open (nondeterministic: error | a reader)"]++
+		if c.E.Concrete != nil || c.decide("zip.File.Open outcome", 2) == 0 {
+			return TupleV{IfaceV{}, ioErr(c, "zip.File.Open")}
+		}
+		return TupleV{IfaceV{T: c.errStringT(), V: &ErrV{Msg: "<reader handle>"}}, IfaceV{}}
+	}
+	tab[gonnxPath+".zzZipFile"] = func(c *Ctx, fn *ssa.Function, a []Value) Value {
+		return new(Value) // an opaque *zip.File
+	}
 	tab["reflect.TypeOf"] = func(c *Ctx, fn *ssa.Function, a []Value) Value {
 		iv, _ := a[0].(IfaceV)
 		n := "<nil>"
